@@ -161,6 +161,7 @@ func specGCRunning(mgr *GCMgr, bkt *Bucket) bool {
 //@ func (store *HStore) GC
 //@   props C17
 //@   ints math
+//@   unreachable_ok the second already-running test (under the write lock) can only fire when another goroutine registered in between; sequentially that return is dead
 //@   requires store.gcMgr != nil && store.gcMgr.stat != nil && Conf != nil && Conf.NumBucket <= len(store.buckets)
 //@   requires 0 <= bucketID                                  // O5: a negative bucket id is not rejected by the code (index panic)
 //@   requires bucketID < Conf.NumBucket ==> store.buckets[bucketID] != nil
